@@ -615,6 +615,10 @@ func (cr *ConRun) runOther() {
 	switch cr.Cfg.Workload {
 	case "txn":
 		cr.runTxn()
+	case "index":
+		cr.runIndex()
+	case "lock":
+		cr.runLock()
 	default:
 		cr.SetupErr = "workload " + cr.Cfg.Workload + " not implemented"
 	}
